@@ -3,6 +3,7 @@ import ast
 import glob
 import json
 import os
+import re
 import sys
 
 from common import REPO, CorrResult, Failure, parse_kv, run_check, use_repo
@@ -13,6 +14,7 @@ from pedal.core.commands import clear_report, contextualize_report  # noqa: E402
 from pedal.core.report import MAIN_REPORT, Report  # noqa: E402
 from pedal.core.submission import Submission  # noqa: E402
 from pedal.source import verify, set_source  # noqa: E402
+from pedal.source.sections import DEFAULT_SECTION_PATTERN, next_section, separate_into_sections  # noqa: E402
 
 THEOREMS = [
     "Pedal.Source.ladder_table",
@@ -301,6 +303,242 @@ def oracle(code, offset, outcome, tree, real):
     return None
 
 
+# ---------------------------------------------------------------------------
+# sectioned files: verify() of section k of an independently sectioned file must report the line CPython itself
+# reports for the WHOLE file.  The offset next_section() registers is pedal's own arithmetic here (the streams
+# above register a number of the harness's choosing), so every character that some line-splitting routine
+# (str.splitlines, str.split("\n"), the tokenizer) treats differently has to occur BEFORE the section.
+
+# A lone CR before the section is a line end for CPython's tokenizer but not for next_section()'s split("\n"): an OPEN
+# finding of the unchanged tree (KNOWN_FINDINGS.jsonl, notes/C12.md).  The inputs are on by default (0 = off switch);
+# every failure on an input of that family - classified on the INPUT, see lone_cr_family - carries exactly the
+# signature LONE_CR_FAMILY, is shown once per run, uses no failure slot and is left out of the model correspondence
+# (the model takes the offset as a parameter; what pedal computes for it is the finding itself).
+LONE_CR = os.environ.get("VERIF_C12_LONE_CR", "1") != "0"
+LONE_CR_FAMILY = {"family": "lone-cr-before-independent-section"}
+_LONE_CR = re.compile(r"\r(?!\n)")
+
+
+def lone_cr_family(c):
+    """Sectioned case (always independent mode here) whose file text BEFORE the section under test contains a lone CR."""
+    if "sect" not in c:
+        return False
+    start = c["upto"] - len(c["code"])
+    return any(m.start() < start for m in _LONE_CR.finditer(c["sect"]["text"]))
+
+SECT_NL_PATTERN = r'^(# ==== .+ ====\n)'
+SECT_PATTERNS = [DEFAULT_SECTION_PATTERN, DEFAULT_SECTION_PATTERN, DEFAULT_SECTION_PATTERN, r'^(# SECTION \d+)$',
+                 SECT_NL_PATTERN]
+SECT_MARKERS = {DEFAULT_SECTION_PATTERN: lambda k: "##### Part %d" % k, r'^(# SECTION \d+)$': lambda k: "# SECTION %d" % k,
+                SECT_NL_PATTERN: lambda k: "# ==== part %d ====" % k}
+SECT_STMTS = ["a = 1", "print(1)", "", "b = 2", "# c", "pass", "if 1:\n    c = 3", "def f(x):\n    return x\n", "   ",
+              "d = [1,\n     2]", "e = \"\"\"two\nlines\"\"\"", "import math", "t = \"q\" \\\n    \"r\"", "\t"]
+# legal Python in which str.splitlines() sees MORE line ends than CPython's tokenizer does (FF, VT, FS/GS/RS, NEL, LS, PS)
+SECT_ODD = ["\x0c", "\x0c\x0c", " \x0c", "g = 1 \x0c", "\x0ch = 1", "# c\x0b d", "s = 'a\u2028b'",
+            "t = \"\"\"a\x0bb\u2028c\x85\"\"\"", "# \x1c\x1d\x1e", "u = 1  # \x85\u2029", "v = (1,\x0c\n 2)", "w = '\x1c'  # \x0c",
+            "k = \"\"\"p\x0c\nq\u2029\"\"\""]
+# legal Python in which CPython's tokenizer sees MORE line ends than str.split("\n") does (lone CR); gated
+SECT_LONE_CR = ["i = 1\rj = 2", "# a\rm = 2", "s = \"\"\"a\rb\"\"\"", "n = [1,\r 2]", "if 1:\r    o = 2", "p = 1\r"]
+SECT_ERRORS = ["y y", "x = (", "1 = 2", "  z = 3", "def f(:", "for i in range(3):\nprint(i)", "if 1:\n\tx = 1\n        y = 2",
+               "q = 1 \x0b", "w = '", "s = \"\"\"abc", "x = 1 +", "a = 1;;", "return = 5", "x = 0777", "class", "f(**)",
+               "x = $", "r = 1 \u2028", "c c\x0c", "if 1:\n    pass\n  k = 2", "print 'a'", "x = [1,2\n"]
+_CP_EOL = re.compile(r"\r\n|\r|\n")
+
+
+def cpython_lines_before(text, start):
+    """How many line ends CPython's tokenizer sees in text[:start]: \\n, \\r\\n and a lone \\r, nothing else (checked
+    against ast.parse of the file on every case, see sect_oracle).  A \\r right before `start` whose \\n sits at
+    `start` belongs to a CRLF that ends after `start`."""
+    n = len(_CP_EOL.findall(text[:start]))
+    if start > 0 and text[start - 1] == "\r" and text[start:start + 1] == "\n":
+        n -= 1
+    return n
+
+
+def sect_spans(text, pattern):
+    """(start, end) of every separator, from Python's own re; None if a match is not the whole group (then
+    re.split would not alternate code and separators)."""
+    spans = []
+    for m in re.finditer(pattern, text, flags=re.MULTILINE):
+        if m.group(1) != m.group(0):
+            return None
+        spans.append((m.start(), m.end()))
+    return spans
+
+
+def sect_chunk(text, pattern, k):
+    spans = sect_spans(text, pattern)
+    if spans is None or not (1 <= k <= len(spans)):
+        return None
+    start = spans[k - 1][1]
+    end = spans[k][0] if k < len(spans) else len(text)
+    return start, end
+
+
+def gen_sectioned(rng):
+    pattern = rng.choice(SECT_PATTERNS)
+    entry = "set_source" if pattern == DEFAULT_SECTION_PATTERN and rng.random() < 0.2 else "separate"
+    nsec = rng.randint(1, 4)
+    k = rng.randint(1, nsec)
+    chunks = []
+    for j in range(nsec + 1):
+        stmts = [rng.choice(SECT_STMTS) for _ in range(rng.randint(0, 4))]
+        if j <= k and rng.random() < 0.6:
+            for _ in range(rng.randint(1, 2)):
+                stmts.insert(rng.randint(0, len(stmts)), rng.choice(SECT_ODD))
+        if LONE_CR and j <= k and rng.random() < 0.3:
+            stmts.insert(rng.randint(0, len(stmts)), rng.choice(SECT_LONE_CR))
+        chunks.append(stmts)
+    if rng.random() < 0.8:
+        chunks[k].insert(rng.randint(0, len(chunks[k])), rng.choice(SECT_ERRORS))
+    if k < nsec and rng.random() < 0.2:
+        chunks[rng.randint(k + 1, nsec)].append(rng.choice(SECT_ERRORS))   # a LATER section's error is not section k's
+    lines = []
+    for j, stmts in enumerate(chunks):
+        if j > 0:
+            lines.append(SECT_MARKERS[pattern](j))
+        for st in stmts:
+            lines += st.split("\n")
+    eol = rng.choice(["\n"] * 7 + ["\r\n", "mixed", "mixed"])
+    out = []
+    for i, ln in enumerate(lines):
+        out.append(ln)
+        if i < len(lines) - 1:
+            out.append(rng.choice(["\n", "\n", "\r\n"]) if eol == "mixed" else eol)
+    text = "".join(out) + rng.choice(["\n", "\n", "\n", "", "\n\n", "\r\n"])
+    return {"text": text, "pattern": pattern, "k": k, "entry": entry, "verify_each": rng.random() < 0.5}
+
+
+def sect_case(rng):
+    """A case of the common shape: code = section k as Python's own re cuts it, offset = the line ends CPython
+    counts before it; None if the generated file has fewer than k separators for the pattern (CRLF vs the
+    newline-capturing pattern)."""
+    s = gen_sectioned(rng)
+    return sect_fill({"sect": s, "filename": rng.choice(FILENAMES), "style": rng.choice([0, 0, 2, 2, 1, 3]),
+                      "explicit": False})
+
+
+def sect_fill(c):
+    s = c["sect"]
+    pos = sect_chunk(s["text"], s["pattern"], s["k"])
+    if pos is None:
+        return None
+    c["code"] = s["text"][pos[0]:pos[1]]
+    c["offset"] = cpython_lines_before(s["text"], pos[0])
+    c["upto"] = pos[1]
+    return c
+
+
+def run_real_sectioned(c):
+    """Walk to section k the way a grader does and verify() it; the feedback is what that LAST verify() added."""
+    s, filename, style = c["sect"], c["filename"], c["style"]
+    clear_report()
+    own = style in (2, 3)
+    rep = Report() if own else MAIN_REPORT
+    kw = {"report": rep} if own else {}
+    out = {"raised": None, "feedback": [], "success": None, "tree": None, "returned": None}
+    n0 = m0 = 0
+    try:
+        if s["entry"] == "set_source":
+            set_source(s["text"], filename=filename, sections=True, **kw)
+        else:
+            rep.contextualize(Submission({filename: s["text"]}, filename))
+            separate_into_sections(pattern=s["pattern"], independent=True, **kw)
+        if s["verify_each"]:
+            verify(**kw)
+        for i in range(s["k"]):
+            next_section(**kw)
+            if s["verify_each"] and i < s["k"] - 1:
+                verify(**kw)
+        n0 = len(rep.feedback)
+        # the section GROUP objects of separate_into_sections/next_section are filed on MAIN_REPORT whatever report
+        # was passed (sections' business, not verify's): only what the last verify() adds there counts as leaked
+        m0 = len(MAIN_REPORT.feedback)
+        sub = rep.submission
+        out["presented"] = sub.main_code
+        out["pedal_offset"] = sub.line_offsets.get(sub.main_file, 0)
+        if style in (1, 3):
+            out["returned"] = verify(sub.main_code, sub.main_file, **kw)
+        else:
+            out["returned"] = verify(**kw)
+    except BaseException as e:  # noqa
+        out["raised"] = type(e).__name__
+        out["detail"] = str(e)[:200]
+    fbs = []
+    for f in rep.feedback[n0:]:
+        line = f.location.line if getattr(f, "location", None) is not None else None
+        fbs.append([f.label, f.category, line])
+    if rep is not MAIN_REPORT:
+        for f in MAIN_REPORT.feedback[m0:]:
+            fbs.append(["LEAKED-TO-MAIN_REPORT:" + str(f.label), f.category, None])
+    out["feedback"] = fbs
+    out["success"] = rep["source"]["success"]
+    out["tree"] = rep["source"]["ast"]
+    return out
+
+
+def sect_oracle(c, outcome, tree, real):
+    """The property for a section: oracle() with offset = CPython's own count, and - where CPython can be asked
+    directly - the line ast.parse reports for the file cut off after section k (earlier sections are valid by
+    construction, so its first error is section k's).  Returns (violation or None, skip reason or None)."""
+    s = c["sect"]
+    if real["raised"] is None and real.get("presented") != c["code"]:
+        return ({"where": "section", "presented": "not-section-k"},
+                "section %d presented as %r, re.finditer cuts %r"
+                % (s["k"], (real.get("presented") or "")[:60], c["code"][:60])), None
+    skip = None
+    if outcome is not None and outcome[1] is not None:
+        whole, _ = cpython_outcome(s["text"][:c["upto"]], c["filename"])
+        if whole is None or whole[0] != outcome[0] or whole[1] is None:
+            skip = "whole-file-parse-differs-in-kind"       # only the count-based expectation is available
+        elif whole[1] != outcome[1] + c["offset"]:
+            return None, "ORACLES-DISAGREE"                  # never on a well-formed case; counted in the evidence
+    v = oracle(c["code"], c["offset"], outcome, tree, real)
+    if v is not None:
+        sig = dict(v[0])
+        sig["where"] = "section"
+        what = v[1] + (" [section %d of an independently sectioned file; next_section() registered offset %r, CPython "
+                       "counts %d line ends before the section]" % (s["k"], real.get("pedal_offset"), c["offset"]))
+        return (sig, what), skip
+    return None, skip
+
+
+def evaluate(c):
+    """(outcome, tree, real) for a case of either kind."""
+    outcome, tree = cpython_outcome(c["code"], c["filename"])
+    if "sect" in c:
+        return outcome, tree, run_real_sectioned(c)
+    return outcome, tree, run_real(c["code"], c["offset"], c.get("load_error", False), c["filename"], c["explicit"],
+                                   c.get("style"))
+
+
+def judge(c, outcome, tree, real):
+    if "sect" in c:
+        return sect_oracle(c, outcome, tree, real)
+    return oracle(c["code"], c["offset"], outcome, tree, real), None
+
+
+def sect_count(count, c):
+    """Which of the dimensions a sectioned case really exercises (evidence)."""
+    s = c["sect"]
+    before = s["text"][:c["upto"] - len(c["code"])]
+    count("sectioned")
+    if len(before.splitlines()) != len(_CP_EOL.findall(before)) + (0 if before.endswith(("\n", "\r")) or not before else 1):
+        count("sectioned:splitlines-only-breaks-before-section")
+    if before.count("\n") != cpython_lines_before(s["text"], len(before)):
+        count("sectioned:lone-CR-before-section")
+    count("sectioned:entry=" + s["entry"])
+
+
+def make_sectioned(rng, n):
+    out = []
+    for _ in range(n):
+        c = sect_case(rng)
+        if c is not None:
+            out.append(c)
+    return out
+
+
 def corpus():
     d = os.path.join(os.path.dirname(os.path.dirname(os.path.abspath(__file__))), "corpus", "C12")
     out = []
@@ -315,7 +553,14 @@ def corpus():
 def make_cases(rng, n):
     progs = programs()
     cases = [{"code": c["code"], "offset": c.get("offset", 0), "filename": c.get("filename", FILENAME),
-              "explicit": c.get("explicit", False)} for c in corpus()]
+              "explicit": c.get("explicit", False)} for c in corpus() if "sect" not in c]
+    for c in corpus():
+        if "sect" in c and (LONE_CR or not c.get("lone_cr")):
+            cc = sect_fill({"sect": dict(c["sect"]), "filename": c.get("filename", FILENAME), "style": c.get("style", 0),
+                            "explicit": False})
+            if cc is not None:
+                cases.append(cc)
+    cases += make_sectioned(rng, max(300, n // 8))
     for s in SPECIALS:
         cases.append({"code": s, "offset": rng.choice([0, 0, 3]), "filename": rng.choice(FILENAMES),
                       "explicit": rng.random() < 0.3})
@@ -336,7 +581,12 @@ def correspond(rng, tier, driver):
     res.rule = ("texts = corpus + 44 special strings (NUL, FF, CR, NBSP, BOM, lone surrogate, parser give-up, ...) + "
                 "1-12 line windows of 15 built-in programs and /repo/examples with 0-3 random char insertions/deletions; "
                 "a line-terminator family (lone CR / CRLF / mixed line ends with a syntax error on the last or a random "
-                "line); random section line offsets registered for the main file; main file named answer.py / student.py "
+                "line); random section line offsets registered for the main file; independently SECTIONED files (1-4 separators, "
+                "three patterns, entered by separate_into_sections or set_source(sections=True), \\n / CRLF / mixed line "
+                "ends, earlier sections containing FF / VT / FS-GS-RS / NEL / LS / PS on lines of their own, at line ends, "
+                "in comments and strings; optional syntax / indentation / tab error in section k and in a later one) where "
+                "verify() is reached through next_section() and the model is fed CPython's own count of line ends before "
+                "the section; main file named answer.py / student.py "
                 "/ hw/part_b.py / main.py; verify() called bare or as verify(code, filename); real = pedal.source.verify on MAIN_REPORT, model = Pedal.Source.verify fed "
                 "with ast.parse's own outcome; non-trivial = text rejected by the parser, blank, or offset > 0")
     n = 5000 if tier == "quick" else 20000
@@ -344,10 +594,13 @@ def correspond(rng, tier, driver):
     # a few load-error cases (correspondence only)
     extra = [{"code": "x = 1", "offset": 0, "load_error": True, "filename": FILENAME, "explicit": False},
              {"code": "x = (", "offset": 2, "load_error": True, "filename": "student.py", "explicit": False}]
-    rows, lines = [], []
+    rows, lines, search_only = [], [], []
     for c in cases + extra:
-        outcome, tree = cpython_outcome(c["code"], c["filename"])
-        real = run_real(c["code"], c["offset"], c.get("load_error", False), c["filename"], c["explicit"], c.get("style"))
+        outcome, tree, real = evaluate(c)
+        if lone_cr_family(c):
+            search_only.append((c, outcome, tree, real))      # open finding: classified and shown by the search
+            res.count("sectioned:lone-cr-family(search only)")
+            continue
         rows.append((c, outcome, tree, real))
         lines.append(model_request(c["code"], c["offset"], outcome, c.get("load_error", False)))
     answers = driver.ask(lines)
@@ -363,14 +616,18 @@ def correspond(rng, tier, driver):
         res.count("verify-style:%s" % c.get("style"))
         if "\r" in c["code"]:
             res.count("has-CR")
+        if "sect" in c:
+            sect_count(res.count, c)
         if outcome is not None or c["code"].strip() == "" or c["offset"]:
-            res.nontrivial.add(json.dumps([c["code"], c["offset"], c["filename"], c["explicit"]]))
+            res.nontrivial.add(json.dumps([c["code"], c["offset"], c["filename"], c["explicit"], c.get("sect")]))
         d = compare(real, model, tree)
         if d:
             real_c = {k: v for k, v in real.items() if k != "tree"}
+            if "sect" in c and real.get("presented") != c["code"]:
+                d.append("presented-text")          # the model was asked about another text than pedal verified
             res.disagreements.append({"case": c, "cpython": outcome, "real": real_c, "model": model, "fields": d})
     res.samples = [rows[-1][0], rows[len(rows) // 2][0]]
-    res.rows = rows
+    res.rows = search_only + rows
     return res
 
 
@@ -398,10 +655,12 @@ def shrink_text(code, offset, fails):
 
 
 def search(rng, tier, broken, corr):
-    failures, seen = [], set()
+    failures, seen, family = [], set(), []
     info = {"rule": "real verify() vs the property oracle (never raises; syntax feedback iff ast.parse rejects; line = "
                     "CPython line + offset; blank reported; stored tree = CPython's) on the correspondence texts plus "
-                    "more seeded mutants", "evaluations": 0, "distinct_nontrivial": 0, "samples": []}
+                    "more seeded mutants; for the sectioned files the expected line is CPython's: its count of line ends before "
+                    "the section + the section's own error line, cross-checked on every case against ast.parse of the "
+                    "file cut off after that section", "evaluations": 0, "distinct_nontrivial": 0, "samples": []}
     nt = set()
 
     def consider(c, outcome, tree, real):
@@ -410,10 +669,24 @@ def search(rng, tier, broken, corr):
             return
         if outcome is not None:
             nt.add(c["code"])
-        v = oracle(c["code"], c["offset"], outcome, tree, real)
+        v, skip = judge(c, outcome, tree, real)
+        if "sect" in c:
+            tag = "sectioned:" + (skip or "checked")
+            info.setdefault("sectioned_breakdown", {})
+            info["sectioned_breakdown"][tag] = info["sectioned_breakdown"].get(tag, 0) + 1
+            sect_count(lambda k: info["sectioned_breakdown"].__setitem__(k, info["sectioned_breakdown"].get(k, 0) + 1), c)
         if v is None:
             return
         sig = v[0]
+        if lone_cr_family(c):
+            info["lone_cr_family_failures"] = info.get("lone_cr_family_failures", 0) + 1
+            if not family:
+                family.append(Failure(dict(LONE_CR_FAMILY), v[1] + " {detailed signature: %s}" % json.dumps(sig, sort_keys=True),
+                                      {"sect": dict(c["sect"]), "filename": c["filename"], "style": c["style"],
+                                       "section_text": c["code"], "cpython_line_ends_before_section": c["offset"]}))
+            return
+        if "sect" in c:
+            return consider_sectioned(c, v)
 
         def fails(code):
             o, t = cpython_outcome(code, c["filename"])
@@ -431,6 +704,33 @@ def search(rng, tier, broken, corr):
         failures.append(Failure(sig, vv[1], {"code": small, "offset": c["offset"], "cpython": o,
                                             "filename": c["filename"], "explicit": c["explicit"], "style": c.get("style")}))
 
+    def consider_sectioned(c, v):
+        sig = v[0]
+
+        def variant(text):
+            cc = sect_fill({"sect": dict(c["sect"], text=text), "filename": c["filename"], "style": c["style"],
+                            "explicit": False})
+            if cc is None or lone_cr_family(cc):
+                return None, None
+            if cpython_outcome(text[:cc["upto"] - len(cc["code"])], c["filename"])[0] is not None:
+                return None, None               # keep what precedes the section valid Python (CPython stays askable)
+            o, t, r = evaluate(cc)
+            return cc, judge(cc, o, t, r)[0]
+
+        def fails(text):
+            vv = variant(text)[1]
+            return vv is not None and vv[0] == sig
+        small = shrink_text(c["sect"]["text"], 0, fails)
+        key = json.dumps([small, sig], sort_keys=True)
+        if key in seen:
+            return
+        seen.add(key)
+        cc, vv = variant(small)
+        vv = vv or v
+        failures.append(Failure(sig, vv[1], {"sect": dict(c["sect"], text=small), "filename": c["filename"],
+                                            "style": c["style"], "section_text": (cc or c)["code"],
+                                            "cpython_line_ends_before_section": (cc or c)["offset"]}))
+
     for row in getattr(corr, "rows", []):
         consider(*row)
         if len(failures) >= 5:
@@ -443,15 +743,30 @@ def search(rng, tier, broken, corr):
     for c in make_cases(rng, n):
         if len(failures) >= 5:
             break
-        outcome, tree = cpython_outcome(c["code"], c["filename"])
-        real = run_real(c["code"], c["offset"], False, c["filename"], c["explicit"], c.get("style"))
+        outcome, tree, real = evaluate(c)
         consider(c, outcome, tree, real)
     info["distinct_nontrivial"] = len(nt)
-    return failures, info
+    return failures + family, info
 
 
 def replay(payload):
     rp = payload.get("replay", {})
+    if "sect" in rp:
+        c = sect_fill({"sect": dict(rp["sect"]), "filename": rp.get("filename", FILENAME), "style": rp.get("style", 0),
+                       "explicit": False})
+        print("file:", repr(rp["sect"]["text"]))
+        if c is None:
+            print("fewer separators than k")
+            return 0
+        outcome, tree, real = evaluate(c)
+        v = judge(c, outcome, tree, real)
+        real.pop("tree", None)
+        print("section %d:" % rp["sect"]["k"], repr(c["code"]))
+        print("cpython on the section:", outcome, " line ends before it:", c["offset"])
+        print("cpython on the file up to the section's end:", cpython_outcome(rp["sect"]["text"][:c["upto"]], c["filename"])[0])
+        print("real:", real)
+        print("verdict:", v)
+        return 0
     if "code" not in rp:
         print(json.dumps(payload, indent=1)[:3000])
         return 0
